@@ -117,9 +117,9 @@ def programs(tier, seed):
     osets = optsets(tier)
     base = progs.corpus() + progs.features()
     if tier == "quick":
-        uni = progs.universe_slice(2, step=331, offset=seed) + progs.universe_slice(1, step=4, offset=seed)
+        uni = progs.universe_slice(2, step=331, offset=seed) + progs.universe_slice(1, step=4, offset=seed) + progs.nested_slice(step=211, offset=seed)
     else:
-        uni = progs.universe_slice(2, step=7, offset=seed) + progs.universe_slice(1, step=1)
+        uni = progs.universe_slice(2, step=7, offset=seed) + progs.universe_slice(1, step=1) + progs.nested_slice(step=13, offset=seed)
     items = []
     for i, p in enumerate(base + uni):
         items.append(dict(label=p["label"], src=p["src"], argv=p["argv"], optsets=osets, want_c=(i % (4 if tier == "quick" else 6) == 0),
